@@ -162,6 +162,24 @@ fn judge_generic<T: Clone + PartialOrd + Debug>(c: &Ctx, l: &mut Local, a: &T, b
             bad(c, l, &format!("clone|{}", k), "a clone does not compare equal".into(), json!({"interval": format!("{:?}", i), "clone": format!("{:?}", cl)}));
         }
     }
+    // clone_from into an existing interval of every kind reproduces the source (kind and bounds)
+    {
+        let mut dsts = vec![Interval::UpperOneSided(b.clone()), Interval::LowerOneSided(a.clone())];
+        if a <= b {
+            dsts.push(Interval::TwoSided(a.clone(), b.clone()));
+        }
+        for src in ivs.iter() {
+            for d in dsts.iter() {
+                let mut dst = d.clone();
+                dst.clone_from(src);
+                l.eval();
+                l.count("clone_from judged");
+                if &dst != src || ikind(&dst) != ikind(src) || dst.left() != src.left() || dst.right() != src.right() {
+                    bad(c, l, &format!("clone_from|{}->{}", ikind(src), ikind(d)), "clone_from does not reproduce the source interval".into(), json!({"source": format!("{:?}", src), "destination_before": format!("{:?}", d), "destination_after": format!("{:?}", dst)}));
+                }
+            }
+        }
+    }
     // different kinds with the same bound never compare equal
     l.eval();
     let (u, lo, tw) = (Interval::UpperOneSided(a.clone()), Interval::LowerOneSided(a.clone()), Interval::TwoSided(a.clone(), a.clone()));
@@ -373,6 +391,7 @@ pub fn run(run: &Arc<Run>) {
         "tuple round trip".into(),
         "hash of equal intervals compared".into(),
         "kinds-with-same-bound distinct".into(),
+        "clone_from judged".into(),
     ];
     for ty in ["i32", "u8", "i64", "f64", "char", "&str", "String"] {
         for c in ["ordered", "equal", "inverted"] {
